@@ -168,7 +168,7 @@ def real_arm(op, args, dim):
                     return "mul-two-vectors" if any(isinstance(a, (sp.Tuple, VectorFunction)) for a in v) else "mul-two-other"
                 return "mul-coeff"
             if op == "Laplace":
-                return "mul-two" if len(v) == 2 else "mul-coeff"
+                return "mul-two" if len(v) == 2 and all(a.is_commutative for a in v) else "mul-coeff"
             return "mul-coeff"
         if isinstance(e, Pow):
             return "pow" if op == "Grad" else "atom"
@@ -207,11 +207,12 @@ def real_arm(op, args, dim):
         return "add-2"
     fa = a1.args if isinstance(a1, Mul) else [a1]
     fb = a2.args if isinstance(a2, Mul) else [a2]
+    out2 = (lambda i: i.is_commutative and i.is_number) if op == "Convect" else (lambda i: i.is_commutative)
     n1 = [i for i in fa if not i.is_commutative]
-    n2 = [i for i in fb if not i.is_commutative]
+    n2 = [i for i in fb if not out2(i)]
     if not n1 or not n2:
         return "raise"
-    pulled = "-factors" if ([i for i in fa if i.is_commutative] + [i for i in fb if i.is_commutative]) else ""
+    pulled = "-factors" if ([i for i in fa if i.is_commutative] + [i for i in fb if out2(i)]) else ""
     if op in ("Dot", "Inner", "Cross"):
         from functools import reduce
         from operator import mul
@@ -264,7 +265,7 @@ def pred_of(op, args, arm, dim=3):
                 if sh != "s":
                     return True
         return False
-    if op in OP2 and op != "Bracket" and any(nonscalar_commutative(a) for a in args):
+    if op in OP2 and op != "Bracket" and any(nonscalar_commutative(a) for a in (args[:1] if op == "Convect" else args)):
         return "commutative-nonscalar-factor"
     if op == "Grad" and nonscalar_commutative(args[0]):
         return "commutative-nonscalar-factor"
@@ -276,17 +277,9 @@ def pred_of(op, args, arm, dim=3):
             return any(var_pow(a) for a in e.args)
         return False
     if op == "Grad":
-        return "pow-variable-exponent" if var_pow(args[0]) else "none"
+        return "none"
     if op == "Div":
         e = args[0]
-        if arm == "mul-two-vectors":
-            coeffs = [a for a in e.args if a.is_number]
-            f = [a for a in e.args if not a.is_number and not isinstance(a, VectorFunction)]
-            if coeffs:
-                return "coeff-not-one"
-            return "pow-variable-exponent" if f and var_pow(f[0]) else "none"
-        if arm == "mul-two-other":
-            return "non-atom-vector"
         return "none"
     if op == "Laplace":
         if arm == "mul-two":
@@ -298,13 +291,8 @@ def pred_of(op, args, arm, dim=3):
                 except Exception:  # noqa
                     return not a.is_commutative
             if any(nonscalar(a) for a in v):
-                return "vector-factor"
-            return "pow-variable-exponent" if any(var_pow(a) for a in v) else "none"
-        return "none"
-    if op == "Convect":
-        a2 = args[1]
-        if arm.endswith("-factors") and isinstance(a2, Mul) and any(a.is_commutative and not a.is_number for a in a2.args):
-            return "function-factor-in-arg2"
+                return "commutative-nonscalar-factor"     # both factors are commutative here: a commutative vector
+            return "none"
         return "none"
     if op in IFACE:
         def ip(e):
@@ -488,12 +476,14 @@ class GConcrete(ser.Concrete):
 
 
 def num_equal(a, b, conc, npts=3, tol=1e-9):
-    """compare two concrete expressions at random points, 40 digits; the points are substituted as
-    high-precision floats so that general powers are evaluated numerically (an exact Rational**Rational makes
-    sympy extract roots of huge integers)"""
+    """compare two concrete expressions at random points.  First pass: the points are substituted as 60-digit floats
+    (fast; an exact Rational**Rational makes sympy extract roots of huge integers).  Floats can fake a difference by
+    cancellation (a huge power times an expression that is identically 0), so a mismatch is re-examined with EXACT
+    rational points, where sympy's evalf tracks the precision; the exact verdict is the one returned."""
     worst = 0.0
     for _ in range(npts):
-        pt = {k: sp.Float(v, 60) for k, v in conc.point().items()}
+        ptq = conc.point()
+        pt = {k: sp.Float(v, 60) for k, v in ptq.items()}
         try:
             va = sp.N(a.xreplace(pt), 40)
             vb = sp.N(b.xreplace(pt), 40)
@@ -507,9 +497,23 @@ def num_equal(a, b, conc, npts=3, tol=1e-9):
             rel = float(diff / scale)
         except Exception:  # noqa
             continue
-        worst = max(worst, rel)
         if rel > tol:
-            return False, {"point": {str(k): str(v)[:12] for k, v in pt.items()}, "lhs": str(va)[:40], "rhs": str(vb)[:40]}
+            try:
+                ea, eb = a.xreplace(ptq), b.xreplace(ptq)
+                dd = ea - eb
+                if dd.is_Rational:
+                    exact_equal = (dd == 0)
+                    rel = 0.0 if exact_equal else rel
+                else:
+                    dv = sp.N(dd, 50)
+                    sc = max(1, abs(sp.N(ea, 50)), abs(sp.N(eb, 50)))
+                    rel = float(abs(dv) / sc)
+                    exact_equal = rel <= tol
+            except Exception:  # noqa
+                exact_equal = False
+            if not exact_equal:
+                return False, {"point": {str(k): str(v) for k, v in ptq.items()}, "lhs": str(va)[:40], "rhs": str(vb)[:40]}
+        worst = max(worst, min(rel, 1.0))
     return True, {"worst_rel": worst}
 
 
